@@ -710,9 +710,14 @@ class AperCheck(Check):
             info["spec_bad"] += 1
             why = "implementation differs from %s" % ("specification" if st.spec_check else "model (proved equal to the specification)")
             k0 = st.known(c, o)
-            is_viol = not (k0 is not None and (k0.startswith("outside:") or self.is_known(k0)))
+            # a recorded deviation is the behaviour of the unchanged tree, which the model mirrors: a case of a known class
+            # counts as that finding only while implementation and model still agree on it
+            agrees = i not in bad_model
+            is_viol = not (k0 is not None and (k0.startswith("outside:") or (self.is_known(k0) and agrees)))
+            if k0 is not None and self.is_known(k0) and not agrees:
+                why += " and no longer behaves as the recorded finding %s does" % k0
             exp = self.expected(st, c, o) if (is_viol and reported < self.max_replays) else None
-            if self.report(st, c, o, why, exp, reported < self.max_replays):
+            if self.report(st, c, o, why, exp, reported < self.max_replays, agrees):
                 reported += 1
             else:
                 info["known"] += 1
@@ -721,7 +726,7 @@ class AperCheck(Check):
         self.cov["streams"][st.name] = info
         info2 = dict(info)
         info2["spec_bad"] = info["spec_bad"] - info["known"]
-        info2["model_bad"] = len([i for i in bad_model if not (st.known(cases[i], obs[i]) and (st.known(cases[i], obs[i]).startswith("outside:") or self.is_known(st.known(cases[i], obs[i]))))])
+        info2["model_bad"] = len([i for i in bad_model if not (st.known(cases[i], obs[i]) and st.known(cases[i], obs[i]).startswith("outside:"))])
         return info2
 
     def findings(self):
@@ -734,9 +739,11 @@ class AperCheck(Check):
     def is_known(self, k):
         return any(f.get("key") == k and f.get("property") == self.pid and f.get("status") == "known" for f in self.findings())
 
-    def report(self, st, c, o, why, expected, write):
+    def report(self, st, c, o, why, expected, write, model_agrees=True):
         """True when this is a violation (not a listed known finding)"""
         k = st.known(c, o)
+        if k is not None and not k.startswith("outside:") and not model_agrees:
+            k = None
         if k is not None and k.startswith("outside:"):
             d = self.cov.setdefault("outside_ngap_classes", {})
             d[k[8:]] = d.get(k[8:], 0) + 1
